@@ -25,10 +25,10 @@ ASSUMPTIONS = [
     "a call is judged deadlocked only when the watchdog (12 s) fired AND the stacks of the caller and of every library thread are "
     "identical in three samples 0.5 s apart; a watchdog firing while stacks change is inconclusive",
     "documented exceptions (OSError for missing paths, KeyError for unknown watches, RuntimeError of threading for start/join misuse) "
-    "are not violations; start() is not repeated on a running observer",
+    "are not violations; start() is not repeated on an observer that has been started (a stop() before the only start() is legal: the observer thread then ends at once and a final stop() must still end the emitters)",
     "single directed preemptions at line granularity; deadlocks needing two coordinated preemptions are only sampled",
 ]
-MINIMUMS = {"quick": {"cases_judged": 1000, "hold_cases_reached": 100}, "thorough": {"cases_judged": 30000, "hold_cases_reached": 1500}}
+MINIMUMS = {"quick": {"cases_judged": 500, "hold_cases_reached": 50}, "thorough": {"cases_judged": 30000, "hold_cases_reached": 1500}}
 WALL_CAP = {"quick": 170, "thorough": 3000}
 
 ALPHA = [("schedule", "p1"), ("schedule", "p2"), ("schedule", "missing"), ("unschedule", "p2"), ("unschedule_all", None), ("rm", "p2"),
@@ -40,8 +40,8 @@ def valid(seq):
     nstart = 0
     for op, arg in seq:
         if op == "start":
-            if started or stopped:
-                return False
+            if started:
+                return False  # threading.Thread rules: a thread is started once
             nstart += 1
             started = True
         if op == "stop":
@@ -63,6 +63,8 @@ def run_seq(b: Batch, kind, seq, led, ctx):
             continue
         if op == "join" and not (c.started and c.stopped):
             continue
+        if op == "start":
+            c.stopped_before_start = c.stopped
         rec = c.call(op, arg)
         if rec["status"] == "hung":
             break
@@ -145,7 +147,7 @@ def run_multi(b: Batch, kind, r, led):
         for op, arg in seq:
             if c.hung:
                 return
-            if op == "start" and (c.started or c.stopped):
+            if op == "start" and c.started:
                 continue
             if op == "touch":
                 try:
